@@ -156,10 +156,14 @@ class MySQLLoadQueryBuilder:
 
     @builder
     def load(self, fp: str) -> MySQLLoadQueryBuilder:  # type:ignore[return]
+        if self._load_file is not None:
+            raise AttributeError("'Query' object already has attribute load_file")
         self._load_file = fp
 
     @builder
     def into(self, table: str | Table) -> MySQLLoadQueryBuilder:  # type:ignore[return]
+        if self._into_table is not None:
+            raise AttributeError("'Query' object already has attribute into_table")
         self._into_table = table if isinstance(table, Table) else Table(table)
 
     def get_sql(self, ctx: SqlContext | None = None) -> str:
